@@ -84,17 +84,22 @@ Definition mod_of (x : Z) : option modspec :=
 
 (* symbol_provider.fill_symbol(module, frame) as instruction_seems_valid_by_symbols sees it (see Gen/UnwindTail.v,
    lib_isv_by_symbols): None = Err (no symbol file for the module), Some None = Ok without set_function,
-   Some (Some false) = Ok after set_function with a non-empty name (the FUNC names of the driver's files are not empty) *)
+   Some (Some e) = Ok after set_function(name, ..) with name.is_empty() = e (a `FUNC addr size psize` line may have an
+   empty name; the single FUNC record of the S: / Y| files is called `f`) *)
+Definition rle_empty (n : C09.Grammar.rle) : bool := forallb (fun pr => snd pr <=? 0) n.
 Definition d_fill (m : modspec) (i : Z) : option (option bool) :=
   match m with
   | (b, _, None) => None
   | (b, _, Some s) =>
       let addr := i - b in
-      Some (if (match s_table s with
-                | Some t => match table_fill t addr with Some _ => true | None => false end
-                | None => (0 <? s_func_size s) && (s_func_lo s <=? addr) && (addr <? s_func_lo s + s_func_size s)
-                end)
-            then Some false else None)
+      Some (match s_table s with
+            | Some t => match rm_get (C09.Grammar.t_funcs t) addr with
+                        | Some fn => Some (rle_empty (C09.Grammar.sf_name fn))
+                        | None => None
+                        end
+            | None => if (0 <? s_func_size s) && (s_func_lo s <=? addr) && (addr <? s_func_lo s + s_func_size s)
+                      then Some false else None
+            end)
   end.
 (* lib.rs instruction_seems_valid_by_symbols: the function body regenerated from the Rust text (Gen/UnwindTail.v) over
    this driver's module lookup and symbol files; C05/ProofsValid.v, d_instr_valid_spec, spells it out *)
